@@ -13,7 +13,7 @@ use neurons::tensor::Tensor;
 pub fn meta(ctx: &Ctx) -> Meta {
     let e = max_epochs(ctx);
     Meta {
-        rule: format!("every validation-loss trajectory in {{rise,fall,equal}}^(E-1) for epoch budgets E in 1..{} x every tolerance T in 1..5, plus tolerances 6..12, 16, 20 with budgets T+1, T+2, T+4 on all trajectories with at most two non-rise events, with validation data (also with print frequencies 1, 2 and beyond the budget on a third of them); every E in 1..{} without; the unmodified learn() is driven through each of them and the commanded pattern is re-derived from the returned vector (only matching runs count). Oracle over what learn() returned: len(train)=n; len(val_loss)=len(val_acc)=n (0 and n=E without validation data); stop(e) := e>T and the last T recorded losses strictly increasing is false for every e<n; if n<E then stop(n). States = (epoch, pattern prefix) pairs visited; transitions = epochs run; non-trivial = trajectories with at least one rise", e, e),
+        rule: format!("every validation-loss trajectory in {{rise,fall,equal}}^(E-1) for epoch budgets E in 1..{} x every tolerance T in 1..5, plus tolerances 6..12, 16, 20 with budgets T+1, T+2, T+4 on all trajectories with at most two non-rise events, with validation data (also with print frequencies 1, 2 and beyond the budget on a third of them, and a third of them at a tiny scale: loss 2^-20 moving in steps of 2^-27); every E in 1..{} without; the unmodified learn() is driven through each of them and the commanded pattern is re-derived from the returned vector (only matching runs count). Oracle over what learn() returned: len(train)=n; len(val_loss)=len(val_acc)=n (0 and n=E without validation data); stop(e) := e>T and the last T recorded losses strictly increasing is false for every e<n; if n<E then stop(n). States = (epoch, pattern prefix) pairs visited; transitions = epochs run; non-trivial = trajectories with at least one rise", e, e),
         bound: format!("E <= {}, T <= 5; complete", e),
         exhaustive: true,
         assumptions: vec!["stop rule read as in the statement's anchor: the window of the last T recorded validation losses is strictly increasing (T-1 comparisons) and more than T epochs have run".into()],
@@ -42,7 +42,9 @@ pub fn check(case: &Kv, rep: &mut Report) {
         rep.nontrivial += 1;
     }
     let k = epochs.max(1);
-    let lr = 0.125f32;
+    // the same construction at a tiny scale: steps of 2^-27 (far below f32::EPSILON) around a loss of 2^-20
+    let tiny = case.opt("scale") == Some("tiny");
+    let lr = if tiny { 7.450_580_6e-9f32 } else { 0.125f32 };
     // coordinate i (0-based) moves +lr per epoch for epochs 1..=i+1, then sits on its target
     // step e -> e+1 (1-based e) has active coordinates i >= e ; delta = -lr * sum_{i>=e} a_i
     // choose A_e = sum_{i>=e} a_i = -c_e  (c = +1 rise, -1 fall, 0 equal)
@@ -67,7 +69,7 @@ pub fn check(case: &Kv, rep: &mut Report) {
     let xs: Vec<Tensor> = (0..k).map(|i| Tensor::one_hot(i, k)).collect();
     let ts: Vec<Tensor> = (0..k).map(|i| Tensor::single(vec![targets[i]])).collect();
     let xv = tensor(Dims::Flat(k), &a.iter().map(|v| *v as f32).collect::<Vec<_>>());
-    let tv = Tensor::single(vec![1000.0]);
+    let tv = Tensor::single(vec![if tiny { 9.536_743e-7 } else { 1000.0 }]);
     let xr: Vec<&Tensor> = xs.iter().collect();
     let tr: Vec<&Tensor> = ts.iter().collect();
     let vx = vec![&xv];
@@ -168,6 +170,9 @@ pub fn cases(ctx: &Ctx) -> Vec<Kv> {
             for tol in 1..=5usize {
                 out.push(Kv::new().put("epochs", epochs).put("tol", tol).put("val", 1).put("pattern", &pat));
                 // the reporting frequency must not influence the contract (output is diverted)
+                if (code + tol) % 3 == 1 {
+                    out.push(Kv::new().put("epochs", epochs).put("tol", tol).put("val", 1).put("pattern", &pat).put("scale", "tiny"));
+                }
                 for print in [1usize, 2, epochs + 5] {
                     if (code + tol + print) % 3 == 0 {
                         out.push(Kv::new().put("epochs", epochs).put("tol", tol).put("val", 1).put("pattern", &pat).put("print", print));
